@@ -218,4 +218,12 @@ theorem m6502_walk_tiles_disasm (mem : Nat → BitVec 8) (start stop : Nat) (h :
     (fun a => len_table (mem a).toNat (mem a).isLt) stop _ start rfl
   exact ⟨k, e1, e2 h⟩
 
+/-- non-vacuity: texts and lengths of a defined, a branch and an undefined opcode; a walk with a three-byte instruction -/
+example : disasm 0x1000 0xb1 0x34 0x00 = ⟨t!"lda (0x34),y", 2⟩ := by decide +kernel
+example : disasm 0x1000 0xd0 0xfe 0x00 = ⟨t!"bne 0x1000 (offset=-2)", 2⟩ := by decide +kernel
+example : disasm 0x1000 0x0f 0x12 0xfd = ⟨t!"bbr0 0x12, 0x1000 (offset=-3)", 3⟩ := by decide +kernel
+example : disasm 0x1000 0x02 0x00 0x00 = ⟨t!"??? 0x02", 1⟩ := by decide +kernel
+example : rangeLines (fun a => if a = 0x1000 then 3 else 1) 0x1000 0x1003 =
+    [(0x1000, false), (0x1001, true), (0x1002, true), (0x1003, false)] := by decide +kernel
+
 end NakenVerif.M6502
